@@ -68,9 +68,9 @@ def spec_next_newline(o):
         out.add((s, g(0, True), "ret:" + lbl(k)))
         k += 1
     s = "look@" + lbl(k)
-    # beyond the tracked offsets the re-look is not correlated any more: only the shape is checked
+    # beyond the tracked offsets the advance edge and the re-look edge fall on the same node
     out.add((s, g(ALL, True), s))
-    out.add((s, g(ALL, True), "ret:" + lbl(k)))
+    out.add((s, g(mask_of([LF]), True), "ret:" + lbl(k)))
     return out
 
 
